@@ -114,6 +114,17 @@ func (c c20) Generate(seed uint64, tier string, idx int) *core.Plan {
 		add(append(append(append([]byte(nil), n...), 0x00), 0x01))
 		add(append(append(append([]byte(nil), n...), 0x00), n...))
 	}
+	if idx%3 == 1 {
+		// names whose last character is multi-byte UTF-8, and the near miss cut inside it
+		for _, suffix := range []string{"caf\u00e9", "\u043f\u0440\u0438\u043c\u0435\u0440.\u0440\u0444", "\u65e5\u672c", "x\U0001F600"} {
+			u := append([]byte(OriginName(int64(r.Intn(1<<30)), r.Intn(6))), []byte(suffix)...)
+			if r.Bool(60) {
+				p.Steps = append(p.Steps, core.Step{Op: "origin", S: []string{core.Hex(u)}, A: []int64{0, int64(len(u)), 0, 1, int64(160 + len(suffix))}})
+			}
+			add(u)
+			add(u[:len(u)-1])
+		}
+	}
 	if idx%2 == 0 {
 		z := []byte(OriginName(int64(r.Intn(1<<30)), 5))
 		z = append(append(z, 0x00), []byte(OriginName(int64(r.Intn(1<<30)), r.Range(1, 40)))...)
